@@ -74,7 +74,10 @@ def case(draw, tier):
     sub = {"params": ["TS[int]"] * npar, "out": "TS[int]", "stmts": body, "ret": ret}
     ins = [f"s{draw(st.integers(0, n_src - 1))}" for _ in range(npar)]
     depths = [0, 1, draw(st.sampled_from([2, 2, 3, 4 if big else 3]))]
-    return {"start": start, "end": end, "outer": outer, "sub": sub, "ins": ins, "depths": depths, "waive": waive}
+    # the nested NODE may read one of its two arguments passively: inner nodes that subscribe to it actively are then woken
+    # out of band (the "push" half of nested scheduling) instead of through an evaluation of the nested node
+    passive_arg = draw(st.integers(0, 1)) if npar == 2 and draw(st.integers(0, 2)) == 0 else None
+    return {"start": start, "end": end, "outer": outer, "sub": sub, "ins": ins, "depths": depths, "waive": waive, "passive_arg": passive_arg}
 
 
 def strategy(tier):
@@ -94,7 +97,10 @@ def build(case, depth):
         # captured outer ports must be re-captured at every level: route them through the wrappers' own `outer` refs
         pass
     stmts = list(copy.deepcopy(case["outer"]))
-    stmts.append({"id": "app", "op": "inline" if depth == 0 else "nested", "sub": top, "ins": case["ins"]})
+    app = {"id": "app", "op": "inline" if depth == 0 else "nested", "sub": top, "ins": list(case["ins"])}
+    if depth >= 1 and case.get("passive_arg") is not None:
+        app["active"] = [1 - case["passive_arg"]]      # the nested node listens to the other argument only
+    stmts.append(app)
     stmts.append({"id": "rec", "op": "node", "ins": ["app"]})
     return {"start": case["start"], "end": case["end"], "stmts": stmts, "subs": subs}
 
@@ -153,6 +159,8 @@ def check(case, ctx) -> Result:
         res.labels.append("self_wake_idle_parent")
     if case["waive"]:
         res.labels.append("waives_validity")
+    if case.get("passive_arg") is not None:
+        res.labels.append("nested_node_passive_on_one_argument")
     if uses_outer(case):
         res.labels.append("captured_outer_port")
     if case["sub"]["ret"] == {"arg": 0}:
